@@ -41,13 +41,6 @@ Proof.
   destruct (N.land val (r_flag p) =? 0); [reflexivity|]. apply IH.
 Qed.
 
-Definition vspec_res (v : vspec) : res (N * list byte) :=
-  match v with
-  | VsOk n r => Ok (n, r)
-  | VsEnd => Err DeserializeUnexpectedEnd
-  | VsBad => Err DeserializeBadVarint
-  end.
-
 Lemma spec_vread_len t l : is_vty t ->
   spec_vread (wbits t) l = spec_vread_loop (wbits t) (N.to_nat (tvmax t)) 0 0 l.
 Proof. intro Ht. unfold spec_vread. rewrite tvmax_len by assumption. reflexivity. Qed.
